@@ -96,6 +96,9 @@ def run(chk, replay=None):
                 if d != t:
                     variants.append(("different-type", [(m, (gen.gen_val(rng, d) if m == n else v)) for m, v in base]))
                     break
+            rg = progen.regroup(t, lits[n])
+            if rg:
+                variants.append(("regrouped-tuple-type", [(m, (rg[1] if m == n else v)) for m, v in base]))
         # combinations: the rules must hold jointly (an undeclared name next to an ill-typed declared one, ...)
         singles = {k: m for k, m in variants}
         for _ in range(4):
